@@ -756,6 +756,10 @@ def main(ck: Check):
         "plan_commands": plan_cmds,
         "correspondence_configurations": len(corr_cfgs),
         "model_vs_code": stats,
+        # not a violation of C16 (nothing decreases), but worth knowing: specs whose damage depends on skill_level
+        # while no level configuration ever reaches them (no default level, name in no job's v/hexa list)
+        "specs_always_built_at_level_0": sorted({f"{f['skill']} ({f['file']})" for f in (formulas or [])
+                                                 if f["lo"] == 0 and f["hi"] == 0 and not f["configurable"]}),
     })
     ck.assumptions += [
         "floats are modelled by exact rationals (comparison tolerance 1e-9 relative)",
